@@ -29,6 +29,9 @@ def must_see(tier):
         for form in ('none', 'embedded', 'external'):
             m['%s:form:%s' % (impl, form)] = 5
         m[impl + ':embedded->external->one-leaf'] = 1
+        m[impl + ':subclass-round-trip'] = 200
+        m[impl + ':setstate-on-live'] = 200
+        m[impl + ':setstate-empty-on-live'] = 5
     for p in range(6):
         m['protocol:%d' % p] = 50
     m['cross:c->py'] = 50
@@ -294,8 +297,150 @@ def run_db_case(fam, kind, rng, rec, ci):
                 return
 
 
+_SUBS = {}
+
+
+def sub_classes(fam, kind, impl):
+    """An application's subclasses: a tree class that names its own leaf
+    class through the documented _bucket_type attribute (module-level names,
+    so that they pickle)."""
+    key = (fam.name, kind, impl)
+    if key not in _SUBS:
+        base = fam.cls(kind, impl)
+        leafbase = fam.cls('Bucket' if kind == 'BTree' else 'Set', impl)
+        nm = 'Sub%s%s%s' % (fam.name, kind, impl.upper())
+        B = type(leafbase)(nm + 'Leaf', (leafbase,), {})
+        T = type(base)(nm, (base,), {'_bucket_type': B})
+        for k_ in (B, T):
+            k_.__module__ = __name__
+            k_.__qualname__ = k_.__name__
+            globals()[k_.__name__] = k_
+        _SUBS[key] = (T, B)
+    return _SUBS[key]
+
+
+def run_subclass_case(fam, kind, rng, rec, ci):
+    """Round trips of a tree SUBCLASS with its own leaf subclass."""
+    is_mapping = kind == 'BTree'
+    vals = [v for v in fam.values(rng)
+            if not isinstance(v, float) or f32(v) == v]
+    for impl in ('c', 'py'):
+        T, B = sub_classes(fam, kind, impl)
+        T.max_leaf_size, T.max_internal_size = gen.NODE_SIZES[
+            rng.randrange(len(gen.NODE_SIZES))]
+        uni = [k for k in fam.key_universe(rng, n=rng.choice([3, 12, 30]))]
+        t = T()
+        for k in uni:
+            if is_mapping:
+                t[k] = rng.choice(vals)
+            else:
+                t.add(k)
+        for k in rng.sample(uni, len(uni) // 3):
+            if is_mapping:
+                del t[k]
+            else:
+                t.remove(k)
+        want = harness.contents(t, is_mapping)
+        w = walker.walk(t, is_mapping, check_sizes=False)
+        if w.errors or w.inline_nonroot:
+            continue
+        desc = dict(family=fam.name, kind=kind, impl=impl, subclass=True,
+                    sizes=(T.max_leaf_size, T.max_internal_size),
+                    leaves=brief(w.leaf_keys, 300))
+        clones = []
+        try:
+            st = pickle.loads(pickle.dumps(t, 3)).__getstate__()
+            f = T()
+            if st is not None:
+                f.__setstate__(st)
+            clones.append(('setstate', f))
+            for proto in range(6):
+                clones.append(('pickle:%d' % proto,
+                               pickle.loads(pickle.dumps(t, proto))))
+            clones.append(('deepcopy', copy.deepcopy(t)))
+        except Exception as e:
+            rec.violation('subclass-round-trip-raised', detail='%s: %s' % (
+                type(e).__name__, e), done=[h for h, _ in clones], **desc)
+            continue
+        for how, cl in clones:
+            rec.evaluations += 1
+            rec.ev(impl + ':subclass-round-trip')
+            rec.seen(impl, kind, 'subclass', how.split(':')[0],
+                     min(len(w.leaf_keys), 3))
+            errs, wc = hist.structural_checks(cl, is_mapping)
+            leaf_t = type(cl._firstbucket) if len(w.leaf_keys) > 1 else B
+            if type(cl) is not T or leaf_t is not B or errs or \
+                    not eq(harness.contents(cl, is_mapping), want):
+                rec.violation('subclass-clone-wrong', how=how,
+                              clone_type=type(cl).__name__,
+                              leaf_type=leaf_t.__name__, errors=errs[:2],
+                              **desc)
+                break
+
+
+def run_live_setstate(fam, kind, impl, src, want, rng, rec, desc, uni):
+    """__setstate__ onto an object that is ALIVE and holds other data (what
+    a data manager does when it re-activates a ghost whose slots were not
+    cleared, and what applications do to reset a container): afterwards
+    the object must hold exactly the new state."""
+    is_tree = kind in families.TREE_KINDS
+    is_mapping = kind in families.MAPPING_KINDS
+    cls = fam.cls(kind, impl)
+    live = cls()
+    old_keys = rng.sample(uni, min(len(uni), rng.choice([2, 9, 25])))
+    vals = fam.values(rng)
+    for k in old_keys:
+        if is_mapping:
+            live[k] = vals[0]
+        else:
+            live.add(k)
+    def fresh_state():
+        d_ = pickle.dumps(src, 3)
+        return (pickle.loads(d_) if impl == 'c' else
+                loads_as_py(d_)).__getstate__()
+    try:
+        st = fresh_state()
+        live.__setstate__(st)
+    except Exception as e:
+        rec.violation('setstate-on-live-object-raised', detail='%s: %s' % (
+            type(e).__name__, e), **dict(desc, impl=impl))
+        return
+    rec.evaluations += 1
+    rec.ev(impl + ':setstate-on-live')
+    if not want:
+        rec.ev(impl + ':setstate-empty-on-live')
+    errs = []
+    try:
+        got = harness.contents(live, is_mapping)
+        if not eq(got, want):
+            errs.append(('contents', brief(got, 200)))
+        if len(live) != len(want) or bool(live) != bool(want):
+            errs.append(('len/bool', (len(live), bool(live))))
+        wk = set(k for k, _ in want) if is_mapping else set(want)
+        ghosts = [k for k in old_keys if k not in wk and (
+            k in live or live.has_key(k))]
+        if ghosts:
+            errs.append(('former keys still found', brief(ghosts, 100)))
+        if is_tree:
+            e2, _ = hist.structural_checks(live, is_mapping)
+            errs += e2
+        st2 = live.__getstate__()
+        st0 = fresh_state()
+        if pickle.dumps(st2, 3) != pickle.dumps(st0, 3) and \
+                pickle.dumps(live, 3) != pickle.dumps(src, 3):
+            errs.append(('state differs from the one set', ''))
+    except Exception as e:
+        errs.append(('raised', '%s: %s' % (type(e).__name__, e)))
+    if errs:
+        rec.violation('setstate-on-live-object-wrong', errors=errs[:4],
+                      former_keys=brief(old_keys, 150),
+                      **dict(desc, impl=impl))
+
+
 def run_case(fam, kind, rng, rec, ci):
     is_tree = kind in families.TREE_KINDS
+    if is_tree and ci % 4 == 1:
+        run_subclass_case(fam, kind, rng, rec, ci)
     is_mapping = kind in families.MAPPING_KINDS
     sizes = gen.NODE_SIZES[ci % len(gen.NODE_SIZES)] if is_tree else None
     if is_tree and ci % 8 == 7:
@@ -452,6 +597,11 @@ def run_case(fam, kind, rng, rec, ci):
                 type(e).__name__, e), **dict(desc, impl=impl, **d))
             continue
         check_clone(sc, impl, 'copy', deep=False)
+    # ---- __setstate__ onto a live, populated object ------------------------
+    for impl, o in objs.items():
+        if not f22.get(impl):
+            run_live_setstate(fam, kind, impl, o, want, rng, rec, desc,
+                              lsc.g.universe)
     # ---- __getstate__ -> fresh __setstate__ (last: shares the children) ---
     for impl, o in objs.items():
         st = o.__getstate__()
